@@ -166,25 +166,47 @@ func (u *Universe) Solve(o *Obligation, dir string, timeoutS int, thorough bool)
 		}
 		return res
 	}
-	// stage 2: race all
+	// stage 2: race all back ends, plus sliced variants (dropping assumptions is sound: it can only lose proofs)
 	os.WriteFile(fc, []byte(u.smtText(o, true, true)), 0o644)
+	type variant struct {
+		sc   solverCfg
+		file string
+		name string
+	}
+	var variants []variant
+	for _, sc := range solvers {
+		f := fz
+		if sc.cvc5 {
+			f = fc
+		}
+		variants = append(variants, variant{sc, f, sc.name})
+	}
+	for _, hops := range []int{1, 2, 3} {
+		so := sliceObligation(o, hops)
+		if so == nil || len(so.Facts) == len(o.Facts) {
+			continue
+		}
+		fs := fmt.Sprintf("%s.slice%d.smt2", base, hops)
+		os.WriteFile(fs, []byte(u.smtText(so, false, false)), 0o644)
+		variants = append(variants, variant{solvers[0], fs, fmt.Sprintf("z3-new/slice%d", hops)})
+		variants = append(variants, variant{solvers[1], fs, fmt.Sprintf("z3-new/ematch/slice%d", hops)})
+	}
 	type ans struct {
 		name, st, out string
 		ms            int64
 	}
-	ch := make(chan ans, len(solvers))
+	ch := make(chan ans, len(variants))
 	var wg sync.WaitGroup
-	for _, sc := range solvers {
-		sc := sc
+	for _, v := range variants {
+		v := v
 		wg.Add(1)
 		go func() {
 			defer wg.Done()
-			f := fz
-			if sc.cvc5 {
-				f = fc
+			s, o2, m := runSolver(ctx, v.sc, v.file, timeoutS)
+			if strings.Contains(v.name, "/slice") && s != "unsat" {
+				s = "unknown" // a model of a sliced query is not a model of the obligation
 			}
-			s, o2, m := runSolver(ctx, sc, f, timeoutS)
-			ch <- ans{sc.name, s, o2, m}
+			ch <- ans{v.name, s, o2, m}
 		}()
 	}
 	go func() { wg.Wait(); close(ch) }()
@@ -241,4 +263,64 @@ func (u *Universe) SolveAll(obls []*Obligation, dir string, timeoutS int, thorou
 		}()
 	}
 	wg.Wait()
+}
+
+// sliceObligation keeps the facts within `hops` symbol-sharing steps of the goal (cone of influence).
+func sliceObligation(o *Obligation, hops int) *Obligation {
+	declared := map[string]bool{}
+	for _, d := range o.Decls {
+		fs := strings.Fields(d)
+		if len(fs) > 1 {
+			declared[fs[1]] = true
+		}
+	}
+	symsOf := func(t string) []string {
+		var out []string
+		for _, s := range reSym.FindAllString(t, -1) {
+			if declared[s] {
+				out = append(out, s)
+			}
+		}
+		return out
+	}
+	rel := map[string]bool{}
+	for _, s := range symsOf(o.Goal) {
+		rel[s] = true
+	}
+	factSyms := make([][]string, len(o.Facts))
+	for i, f := range o.Facts {
+		factSyms[i] = symsOf(f)
+	}
+	keep := make([]bool, len(o.Facts))
+	for h := 0; h < hops; h++ {
+		var add []string
+		for i, ss := range factSyms {
+			if keep[i] {
+				continue
+			}
+			hit := len(ss) == 0
+			for _, s := range ss {
+				if rel[s] {
+					hit = true
+					break
+				}
+			}
+			if hit {
+				keep[i] = true
+				add = append(add, ss...)
+			}
+		}
+		for _, s := range add {
+			rel[s] = true
+		}
+	}
+	n := *o
+	n.Facts = nil
+	for i, f := range o.Facts {
+		if keep[i] {
+			n.Facts = append(n.Facts, f)
+		}
+	}
+	n.Result = nil
+	return &n
 }
